@@ -209,7 +209,22 @@ func (fi *FuncInfo) extLemmas0() []Fact {
 			}
 			return true
 		}
-		conds := fi.condsAt(l.Header)
+		// direct induction over the header's incoming edges with the cheap prover:
+		// entry edges establish g = 0, back edges preserve it under the edge conditions
+		induct := func(g Lin, sub func(i int) Lin) bool {
+			for i, p := range l.Header.Preds {
+				gi := sub(i)
+				cs := fi.edgeConds(p, l.Header)
+				var hyp []Fact
+				if l.Blocks[p] {
+					hyp = []Fact{{g, EQ}}
+				}
+				if !(fi.proveFlat(gi, cs, hyp) && fi.proveFlat(gi.scale(-1), cs, hyp)) {
+					return false
+				}
+			}
+			return true
+		}
 		for _, k := range ints {
 			for _, q := range slices {
 				if !selfSliced(q) {
@@ -217,7 +232,8 @@ func (fi *FuncInfo) extLemmas0() []Fact {
 				}
 				base := fi.lin(k.Edges[entry]).add(fi.lenOf(q.Edges[entry]))
 				g := linAtom(k.Name()).add(linAtom("len(" + q.Name() + ")")).sub(base)
-				if fi.proveLE0(g, conds, nil, map[string]bool{}, 0) && fi.proveLE0(g.scale(-1), conds, nil, map[string]bool{}, 0) {
+				k, q := k, q
+				if induct(g, func(i int) Lin { return fi.lin(k.Edges[i]).add(fi.lenOf(q.Edges[i])).sub(base) }) {
 					out = append(out, Fact{g, EQ})
 				}
 			}
@@ -229,7 +245,8 @@ func (fi *FuncInfo) extLemmas0() []Fact {
 				}
 				base := fi.lenOf(r.Edges[entry]).sub(fi.lenOf(q.Edges[entry]))
 				g := linAtom("len(" + r.Name() + ")").sub(linAtom("len(" + q.Name() + ")")).sub(base)
-				if fi.proveLE0(g, conds, nil, map[string]bool{}, 0) && fi.proveLE0(g.scale(-1), conds, nil, map[string]bool{}, 0) {
+				q, r := q, r
+				if induct(g, func(i int) Lin { return fi.lenOf(r.Edges[i]).sub(fi.lenOf(q.Edges[i])).sub(base) }) {
 					out = append(out, Fact{g, EQ})
 				}
 			}
@@ -346,7 +363,7 @@ func ruleOffsetAgree(c *Ctx) {
 		fi := s.fi
 		P := fi.lin(s.P)
 		off := fi.lin(stripConv(e.Offset))
-		lem := append(fi.extLemmas(), fi.loopLemmas()...)
+		lem := fi.extLemmas()
 		// word counts in the scan loop that flow into this emission's MatchLen
 		m := stripConv(e.MatchLen)
 		feeds := valueClosure(m, s.L)
@@ -385,6 +402,7 @@ func ruleOffsetAgree(c *Ctx) {
 						continue
 					}
 					conds := fi.condsAt(b)
+					lem := fi.validFacts(lem, b, nil)
 					good := false
 					for _, full := range []bool{false, true} {
 						eq := func(l Lin) bool {
@@ -669,12 +687,12 @@ func ruleExtCover(c *Ctx) {
 		}
 		pLen := fi.lenOf(q.X)
 		E := fi.lin(q.High).add(fi.lin(stripConv(e.MatchLen)))
-		lem := append(fi.extLemmas(), fi.loopLemmas()...)
+		lem := fi.extLemmas()
 		cases := fi.expandCases(E, s.L, e.Block)
 		okAll := true
 		kinds := map[string]int{}
 		for _, cs := range cases {
-			extra := append(append([]Fact{}, lem...), cs.Eqs...)
+			extra := append(fi.validFacts(lem, e.Block, cs.Preds), cs.Eqs...)
 			just := ""
 			for _, full := range []bool{false, true} {
 				prove := func(g Lin) bool {
@@ -1331,4 +1349,304 @@ func isByteLoad(v ssa.Value) bool {
 	}
 	ia, ok := ld.X.(*ssa.IndexAddr)
 	return ok && isByteSlice(ia.X.Type())
+}
+
+// ---------------------------------------------------------------- R-PREFIX-STOP
+
+func init() {
+	reg(&Rule{ID: "R-PREFIX-STOP", Min: 3,
+		Doc: "the common-prefix/suffix helpers (lcp, lcs, suffix.matchLen) never count past a mismatch: a word count c is followed by further counting only under c = word size, a single byte is counted only under equality, and after an unequal byte nothing more is counted; every increment of the result is one of these forms",
+		Run: rulePrefixStop})
+}
+
+// wordWidth: v = bits.{Trailing,Leading}Zeros{64,32}(x) >> 3 → 8 or 4; 0 otherwise.
+func wordWidth(v ssa.Value) int64 {
+	bo, ok := v.(*ssa.BinOp)
+	if !ok || bo.Op != token.SHR {
+		return 0
+	}
+	if k, isC := constInt(bo.Y); !isC || k != 3 {
+		return 0
+	}
+	call, ok := bo.X.(*ssa.Call)
+	if !ok || call.Call.StaticCallee() == nil || call.Call.StaticCallee().Pkg == nil || call.Call.StaticCallee().Pkg.Pkg.Path() != "math/bits" {
+		return 0
+	}
+	switch call.Call.StaticCallee().Name() {
+	case "TrailingZeros64", "LeadingZeros64":
+		return 8
+	case "TrailingZeros32", "LeadingZeros32":
+		return 4
+	}
+	return 0
+}
+
+func rulePrefixStop(c *Ctx) {
+	var helpers []*ssa.Function
+	for _, fn := range c.allFuncs {
+		sig := fn.Signature
+		if sig.Recv() == nil && sig.Params().Len() == 2 && sig.Results().Len() == 1 && isIntType(sig.Results().At(0).Type()) &&
+			isByteSlice(sig.Params().At(0).Type()) && isByteSlice(sig.Params().At(1).Type()) && fn.Parent() == nil {
+			helpers = append(helpers, fn)
+		}
+	}
+	for _, fn := range helpers {
+		fi := c.info(fn)
+		name := fnName(fn)
+		// result web
+		var rets []ssa.Value
+		for _, b := range fn.Blocks {
+			if r, ok := b.Instrs[len(b.Instrs)-1].(*ssa.Return); ok && len(r.Results) == 1 {
+				rets = append(rets, r.Results[0])
+			}
+		}
+		// the accumulator web: phis and additions that lead back to the initial 0
+		var reachesZero func(v ssa.Value, seen map[ssa.Value]bool) bool
+		reachesZero = func(v ssa.Value, seen map[ssa.Value]bool) bool {
+			if seen[v] {
+				return false
+			}
+			seen[v] = true
+			switch x := v.(type) {
+			case *ssa.Const:
+				k, ok := constInt(x)
+				return ok && k == 0
+			case *ssa.Phi:
+				for _, e := range x.Edges {
+					if reachesZero(e, seen) {
+						return true
+					}
+				}
+			case *ssa.BinOp:
+				if x.Op == token.ADD {
+					return reachesZero(x.X, seen) || reachesZero(x.Y, seen)
+				}
+			}
+			return false
+		}
+		feeds := map[ssa.Value]bool{}
+		accSide := map[*ssa.BinOp]ssa.Value{}
+		var walk func(v ssa.Value)
+		walk = func(v ssa.Value) {
+			if v == nil || feeds[v] {
+				return
+			}
+			switch x := v.(type) {
+			case *ssa.Phi:
+				feeds[v] = true
+				for _, e := range x.Edges {
+					walk(e)
+				}
+			case *ssa.BinOp:
+				if x.Op == token.ADD {
+					feeds[v] = true
+					if reachesZero(x.X, map[ssa.Value]bool{}) {
+						accSide[x] = x.X
+						walk(x.X)
+					} else if reachesZero(x.Y, map[ssa.Value]bool{}) {
+						accSide[x] = x.Y
+						walk(x.Y)
+					}
+				}
+			}
+		}
+		for _, r := range rets {
+			walk(r)
+		}
+		type inc struct {
+			add   *ssa.BinOp
+			cnt   ssa.Value
+			width int64 // 8/4 word, 1 byte, 0 clamped tail
+		}
+		var incs []inc
+		okForms := true
+		for v := range feeds {
+			add, ok := v.(*ssa.BinOp)
+			if !ok || add.Op != token.ADD {
+				continue
+			}
+			// which operand is the running result, which the count?
+			var cnt ssa.Value
+			switch accSide[add] {
+			case add.X:
+				cnt = add.Y
+			case add.Y:
+				cnt = add.X
+			default:
+				continue
+			}
+			w := wordWidth(cnt)
+			switch {
+			case w > 0:
+				incs = append(incs, inc{add, cnt, w})
+			case isConst1(cnt):
+				incs = append(incs, inc{add, cnt, 1})
+			default:
+				// clamped word count: phi(word count, length)
+				if ph, isPhi := cnt.(*ssa.Phi); isPhi {
+					isClamp := false
+					for _, e := range ph.Edges {
+						if wordWidth(e) > 0 {
+							isClamp = true
+						}
+					}
+					if isClamp {
+						incs = append(incs, inc{add, cnt, 0})
+						continue
+					}
+				}
+				okForms = false
+				c.fail(name+":increment", add.Pos(), "the result is increased by %s, which is neither a word count (…Zeros>>3), a single byte under an equality test, nor a length-clamped word count: counting may continue past a mismatch", cnt.Name())
+			}
+		}
+		sort.Slice(incs, func(i, j int) bool { return incs[i].add.Pos() < incs[j].add.Pos() })
+		if len(incs) == 0 {
+			c.fail(name+":increment", fn.Pos(), "no recognised increment of the result")
+			continue
+		}
+		isIncBlock := map[*ssa.BasicBlock]bool{}
+		for _, in := range incs {
+			isIncBlock[in.add.Block()] = true
+		}
+		bad := ""
+		for _, in := range incs {
+			b := in.add.Block()
+			switch {
+			case in.width >= 4:
+				// follow only edges that do NOT establish cnt ≥ width; no further increment may be reachable
+				want := linConst(in.width).sub(fi.lin(in.cnt)) // width − c ≤ 0
+				seen := map[*ssa.BasicBlock]bool{}
+				stack := []*ssa.BasicBlock{}
+				push := func(p, s *ssa.BasicBlock) {
+					for _, f := range fi.factsOf(fi.edgeLast(p, s)) {
+						if f.Op == LE && f.L.eq(want) {
+							return // this edge carries c ≥ width
+						}
+					}
+					if !seen[s] {
+						seen[s] = true
+						stack = append(stack, s)
+					}
+				}
+				for _, s := range b.Succs {
+					push(b, s)
+				}
+				for len(stack) > 0 {
+					x := stack[len(stack)-1]
+					stack = stack[:len(stack)-1]
+					if isIncBlock[x] {
+						bad = fmt.Sprintf("after the %d-byte word count at %s further bytes can be counted although the count was not shown to be %d (a mismatch inside the word)", in.width, c.pos(in.add.Pos()), in.width)
+						break
+					}
+					for _, s := range x.Succs {
+						push(x, s)
+					}
+				}
+			case in.width == 1:
+				// counted only under byte equality; after the unequal edge no increment is reachable
+				var eqBlk *ssa.BasicBlock
+				var neSucc *ssa.BasicBlock
+				for d := b; d != nil && eqBlk == nil; d = d.Idom() {
+					iff, ok := d.Instrs[len(d.Instrs)-1].(*ssa.If)
+					if !ok {
+						continue
+					}
+					bo, ok := iff.Cond.(*ssa.BinOp)
+					if !ok || !(bo.Op == token.EQL || bo.Op == token.NEQ) || !isByteLoad(bo.X) || !isByteLoad(bo.Y) {
+						continue
+					}
+					eqSucc := d.Succs[0]
+					ne := d.Succs[1]
+					if bo.Op == token.NEQ {
+						eqSucc, ne = ne, eqSucc
+					}
+					if eqSucc == b || eqSucc.Dominates(b) {
+						eqBlk, neSucc = d, ne
+					}
+				}
+				if eqBlk == nil {
+					bad = fmt.Sprintf("the byte increment at %s is not guarded by an equality test of the two bytes", c.pos(in.add.Pos()))
+					break
+				}
+				reach := fi.reach[neSucc]
+				for ib := range isIncBlock {
+					if ib == neSucc || reach[ib] {
+						bad = fmt.Sprintf("after the unequal byte at %s the comparison continues and can count later bytes", c.pos(in.add.Pos()))
+					}
+				}
+			}
+			if bad != "" {
+				break
+			}
+		}
+		if okForms {
+			c.check(bad == "", name+":stop-at-mismatch", fn.Pos(), fmt.Sprintf("%d increments: counting continues only after a fully equal word / an equal byte", len(incs)), bad)
+		}
+	}
+	if len(helpers) == 0 {
+		c.fail("helpers", token.NoPos, "no byte-compare helper func(p, q []byte) int found")
+	}
+}
+
+func isResultPart(v ssa.Value, feeds map[ssa.Value]bool) bool {
+	switch x := v.(type) {
+	case *ssa.Phi:
+		return feeds[x]
+	case *ssa.BinOp:
+		return x.Op == token.ADD && feeds[x]
+	case *ssa.Const:
+		k, ok := constInt(x)
+		return ok && k == 0
+	}
+	return false
+}
+
+func isConst1(v ssa.Value) bool { k, ok := constInt(v); return ok && k == 1 }
+
+// validFacts keeps the facts all of whose SSA-defined atoms are defined on
+// the way to the proving point: in a block that dominates `at` or one of the
+// blocks of the path (preds). A lemma about loop-carried values is
+// meaningless on a path that bypasses the loop and must not be used there.
+func (fi *FuncInfo) validFacts(facts []Fact, at *ssa.BasicBlock, preds []*ssa.BasicBlock) []Fact {
+	av := fi.atomValues()
+	defined := func(a string) bool {
+		name := a
+		if strings.HasPrefix(name, "len(") && strings.HasSuffix(name, ")") {
+			name = name[4 : len(name)-1]
+		}
+		if strings.HasPrefix(name, "cap(") && strings.HasSuffix(name, ")") {
+			name = name[4 : len(name)-1]
+		}
+		v, ok := av[name]
+		if !ok {
+			return true // parameters, field loads keyed by path: defined by version
+		}
+		in, isIn := v.(ssa.Instruction)
+		if !isIn {
+			return true
+		}
+		d := in.Block()
+		if at != nil && (d == at || d.Dominates(at)) {
+			return true
+		}
+		for _, p := range preds {
+			if d == p || d.Dominates(p) {
+				return true
+			}
+		}
+		return false
+	}
+	var out []Fact
+	for _, f := range facts {
+		ok := true
+		for a := range f.L.t {
+			if !defined(a) {
+				ok = false
+			}
+		}
+		if ok {
+			out = append(out, f)
+		}
+	}
+	return out
 }
